@@ -1537,3 +1537,121 @@ func isExpandedHelperAtom(p *Prog, a Atom) bool {
 	}
 	return false
 }
+
+// ---- calls through a local closure that is handed the function to call -----------------------------
+
+// vcall: outer calls the local closure at site and hands it callee (a method value or a function);
+// inside the closure the dynamic call inner invokes it.  `try(t.parseRune)` with
+// `try := func(parse func(...) ...) bool { part, comp := parse(buf, &res) … }` is, for every analysis
+// that asks "who calls parseRune, where, under which conditions", a call of parseRune at site.
+type vcall struct {
+	site   ssa.Instruction
+	inner  ssa.Instruction
+	via    *ssa.Function
+	callee *ssa.Function
+}
+
+var vcallCache = map[*ssa.Function][]vcall{}
+
+func closureDispatch(outer *ssa.Function) []vcall {
+	if outer == nil {
+		return nil
+	}
+	if v, ok := vcallCache[outer]; ok {
+		return v
+	}
+	var out []vcall
+	for _, a := range outer.AnonFuncs {
+		// dynamic calls of a's own function-typed parameters
+		type dyn struct {
+			in  ssa.Instruction
+			idx int
+		}
+		var dyns []dyn
+		eachInstr(a, func(in ssa.Instruction) {
+			cc := callCommon(in)
+			if cc == nil || cc.IsInvoke() {
+				return
+			}
+			if par, ok := cc.Value.(*ssa.Parameter); ok {
+				for i, q := range a.Params {
+					if q == par {
+						dyns = append(dyns, dyn{in, i})
+					}
+				}
+			}
+		})
+		if len(dyns) == 0 {
+			continue
+		}
+		eachInstr(outer, func(in ssa.Instruction) {
+			cc := callCommon(in)
+			if cc == nil || staticCallee(cc) != a {
+				return
+			}
+			for _, d := range dyns {
+				if d.idx >= len(cc.Args) {
+					continue
+				}
+				if f := functionValueOf(cc.Args[d.idx]); f != nil {
+					out = append(out, vcall{site: in, inner: d.in, via: a, callee: f})
+				}
+			}
+		})
+	}
+	vcallCache[outer] = out
+	return out
+}
+
+// functionValueOf: the function a function value stands for: a function, a closure without surprises,
+// or a method value (`t.parseRune`: the wrapper go/ssa makes for it calls the method).
+func functionValueOf(v ssa.Value) *ssa.Function {
+	switch x := v.(type) {
+	case *ssa.Function:
+		return unwrapBound(x)
+	case *ssa.MakeClosure:
+		if f, ok := x.Fn.(*ssa.Function); ok {
+			return unwrapBound(f)
+		}
+	case *ssa.ChangeType:
+		return functionValueOf(x.X)
+	}
+	return nil
+}
+
+func unwrapBound(f *ssa.Function) *ssa.Function {
+	if f == nil || !strings.HasSuffix(f.Name(), "$bound") {
+		return f
+	}
+	var m *ssa.Function
+	eachInstr(f, func(in ssa.Instruction) {
+		if cc := callCommon(in); cc != nil && m == nil {
+			m = cc.StaticCallee()
+		}
+	})
+	if m != nil {
+		return m
+	}
+	return f
+}
+
+// calleesAt: the functions the instruction calls: its static callee, and what a local closure called
+// here invokes on the caller's behalf.
+func calleesAt(in ssa.Instruction) []*ssa.Function {
+	var out []*ssa.Function
+	cc := callCommon(in)
+	if cc == nil {
+		return nil
+	}
+	if f := staticCallee(cc); f != nil {
+		out = append(out, f)
+	}
+	if in.Parent() != nil {
+		for _, v := range closureDispatch(in.Parent()) {
+			if v.site == in {
+				out = append(out, v.callee)
+			}
+		}
+	}
+	return out
+}
